@@ -46,7 +46,7 @@ PINNED_NODES = {
     'NAS': ([], ['attached_components_info', 'image_type', 'image_ref']),
     'Facility': ([], ['attached_components_info', 'image_type', 'image_ref', 'management_ip']),
 }
-KIND_PATTERNS = ('dedicated', 'shared', 'facility-first', 'sub-first', 'mixed')
+KIND_PATTERNS = ('dedicated', 'shared', 'facility-first', 'sub-first', 'mixed', 'trunk', 'trunk-mixed')
 PLACEMENTS = ('one-site', 'two-sites', 'three-sites')
 PROPS = (None, 'mirror_port', 'mirror_vlan', 'mirror_direction', 'controller_url', 'ero', 'mirror-complete')
 
@@ -87,7 +87,14 @@ def build_ports(t, n_if, placement, kinds):
         kind = {'dedicated': 'DedicatedPort', 'shared': 'SharedPort',
                 'facility-first': 'FacilityPort' if k == 0 else 'DedicatedPort',
                 'sub-first': 'SubInterface' if k == 0 else 'DedicatedPort',
-                'mixed': 'DedicatedPort' if k % 2 == 0 else 'SharedPort'}[kinds]
+                'mixed': 'DedicatedPort' if k % 2 == 0 else 'SharedPort',
+                'trunk': 'TrunkPort', 'trunk-mixed': 'DedicatedPort' if k % 2 == 0 else 'TrunkPort'}[kinds]
+        if kind == 'TrunkPort':
+            # a hand-built switch whose service carries a trunk port (a port kind no at-once guardrail knows about)
+            sw = t.add_node(name=f'sw{k}', site=site, ntype=NodeType.Switch)
+            sns = sw.add_network_service(name=f'sw{k}-ns', nstype=ServiceType.MPLS)
+            out.append((sns.add_interface(name=f'sw{k}-t', itype=InterfaceType.TrunkPort), kind, site))
+            continue
         if kind == 'FacilityPort':
             f = t.add_facility(name=f'fac{k}', site=site, labels=Labels(vlan='100'))
             out.append((f.interface_list[0], kind, site))
@@ -280,19 +287,23 @@ def service_cases(tier):
                 for kinds in KIND_PATTERNS:
                     if n_if == 0 and kinds != 'dedicated':
                         continue
-                    if kinds == 'mixed' and n_if < 2:
+                    if kinds in ('mixed', 'trunk-mixed') and n_if < 2:
                         continue
                     for declared in (None, 'match', 'other'):
                         for prop in PROPS:
                             if tier == 'quick' and prop is not None and declared is not None:
                                 continue       # quick: toggle declared site and properties one at a time
                             for mode in ('ctor', 'connect'):
+                                if tier == 'quick' and n_if >= 4 and (prop is not None or declared is not None):
+                                    continue       # quick: property / declared-site toggles on services with <= 3 interfaces
+                                if tier == 'quick' and kinds in ('trunk', 'trunk-mixed') and stype not in ('L2PTP', 'L2STS', 'L2Bridge', 'PortMirror'):
+                                    continue
                                 if tier == 'quick':
                                     # quick: connect-afterwards only where it can differ (shared ports involved) or for
                                     # the plain variant; 4 interfaces only for the dedicated / mixed patterns
                                     if mode == 'connect' and not (kinds in ('shared', 'mixed') or (prop is None and declared is None)):
                                         continue
-                                    if n_if == 4 and kinds not in ('dedicated', 'mixed'):
+                                    if n_if == 4 and kinds not in ('dedicated', 'mixed', 'trunk-mixed'):
                                         continue
                                 cases.append((stype, n_if, placement, kinds, declared, prop, mode))
     return cases
@@ -302,7 +313,7 @@ def run(report):
     explore_cases(report, 'tables', eval_meta, [('tables',)], workers=1, rule='library constraint tables vs the pinned copy')
     g = explore_cases(report, 'services', eval_service, service_cases(report.tier), chunk=16,
                       rule='15 service types x 0..4 connected interfaces x site placement (1/2/3 sites) x interface kinds (dedicated, '
-                           'shared, facility-first, sub-interface-first, mixed) x declared site (unset/matching/other) x constrained '
+                           'shared, facility-first, sub-interface-first, dedicated+shared, trunk, dedicated+trunk) x declared site (unset/matching/other) x constrained '
                            'property (none, each mirror property, controller_url, ero, complete mirror set) x construction mode '
                            '(interfaces in the constructor | connect_interface afterwards); quick toggles declared site and '
                            'properties one at a time, thorough jointly; non-trivial = decided cases')
